@@ -26,12 +26,16 @@ logging.disable(logging.CRITICAL)
 
 EXTRA = {
     "assumptions": [
-        "GAP (declared): the text stage 'through json.dumps(allow_nan=False) and json.loads' is NOT in the theorem. "
-        "DESIGN §5 promised a Lean encode/decode pair over the JSON value type proved inverse; it was not built "
-        "(string escapes and float tokens of CPython's encoder would have to be modelled). json_roundtrip states "
-        "toTable (tableJson t) directly; Python's json module is trusted base: on NaN-free plain values the text trip "
-        "is the identity with exact leaf types — sampled every run (json.loads(json.dumps(j)) compared leaf by leaf "
-        "with exact types on every generated table), never proved",
+        "the JSON text trip is modelled and proved (Model/JsonText.lean `dumps` / `loads`, theorems loads_dumps and "
+        "json_roundtrip_through_text) and compared with CPython's json module on every run: the model's dumps text char "
+        "for char with json.dumps(j, allow_nan=False) on every generated JsonData, the model's loads with json.loads on "
+        "that text, on the listed edge cases and on randomly damaged texts (accept / reject and the value). What stays "
+        "external: the *values* of numerals — int(text) and repr(float(text)) — enter as oracle tables (NumCodec), and the "
+        "codec laws int(str(i)) == i, repr(float(repr(x))) == repr(x) for finite x, str(i) / repr(x) being JSON numerals, "
+        "are hypotheses (`JWF`, `NumText`) sampled on every case; Python strings holding lone surrogates are outside the "
+        "model (a Lean Char is a Unicode scalar value); where CPython accepts what JVal cannot express — the literals "
+        "NaN / Infinity / -Infinity and lone-surrogate \\\\u escapes — the model rejects and the harness skips exactly "
+        "those two named classes (counted in the evidence)",
         "pandas.to_datetime(str(Timestamp)) == Timestamp for microsecond timestamps (the codec law of the theorem's "
         "`DtCodec` hypothesis; sampled every run for each generated timestamp, years 1900-2200)",
         "what `list(df[col])` yields per dtype (Python float / int / bool / str, pd.Timestamp / NaT) is assumed by the "
@@ -50,7 +54,9 @@ EXTRA = {
         "and sampled counter-example); the round trip is claimed for tables without missing "
         "datetimes only (a null reaches _parse_datetime_column as None, which the strict fixer rejects)",
     ],
-    "explanation": "Props/C08.lean: toJson never yields NaN (json_pure / no_nan for every input of "
+    "explanation": "Props/C08.lean: loads_dumps (json.loads(json.dumps(v)) = v for every well-formed JSON value, by mutual "
+                   "induction over the nested value; strings incl. \\\\uXXXX and surrogate pairs, the short escapes, numerals, "
+                   "whitespace) and json_roundtrip_through_text; toJson never yields NaN (json_pure / no_nan for every input of "
                    "to_json_serializable), ofTable / ofPrecursor total with an explicit value (ofTable_eq), "
                    "strict_dumps_iff, columns_in_order, json_roundtrip (toTable (ofTable t) = ok (observe t) for every "
                    "well-formed t without missing datetimes, every ext satisfying the codec law).",
@@ -572,6 +578,116 @@ def inject_ns(rng, grid, info, native=False, p=0.35):
     return keep_ns_in_range(grid, info)
 
 
+# --------------------------------------------------------------------------- the JSON text trip (Model/JsonText.lean)
+
+_NUM_RUN = None
+
+
+def numeral_tables(text):
+    """values of every maximal run of numeral characters in the text, computed with int() / float() themselves (the
+    model decides the JSON number *grammar*; the tables only say what a numeral is worth)"""
+    import re
+    global _NUM_RUN
+    _NUM_RUN = _NUM_RUN or re.compile(r"[-+0-9.eE]+")
+    ints, floats = {}, {}
+    for tok in set(_NUM_RUN.findall(text)):
+        if not tok.isascii():
+            continue
+        try:
+            ints[tok] = int(tok)
+        except ValueError:
+            pass
+        try:
+            floats[tok] = float_tok(float(tok))
+        except (ValueError, OverflowError):
+            pass
+    return ints, floats
+
+
+def loads_op(text):
+    ints, floats = numeral_tables(text)
+    return {"op": "json_loads", "text": text, "ints": ints, "floats": floats}
+
+
+def has_surrogate(j):
+    if isinstance(j, str):
+        return any(0xD800 <= ord(ch) <= 0xDFFF for ch in j)
+    if isinstance(j, list):
+        return any(has_surrogate(e) for e in j)
+    if isinstance(j, dict):
+        return any(has_surrogate(k) or has_surrogate(v) for k, v in j.items())
+    return False
+
+
+def impl_loads(text):
+    """-> {"ok": jv} | {"reject": True} | {"skip": <named class CPython accepts and JVal cannot express>}"""
+    constants = []
+
+    def const(c):                      # called by the decoder exactly for the literals NaN, Infinity, -Infinity
+        constants.append(c)
+        return float(c)
+    try:
+        v = json.loads(text, parse_constant=const)
+    except RecursionError:
+        return {"skip": "recursion limit"}
+    except ValueError:
+        return {"reject": True}
+    if constants:
+        return {"skip": "NaN / Infinity literal"}
+    if has_surrogate(v):
+        return {"skip": "lone surrogate escape"}
+    return {"ok": jv(v)}
+
+
+TEXT_PALETTE = list('"\\{}[],: \n\t0123456789.eE+-truefalsnNaIy/ubx') + ["\u00e9", "\U0001f600", "\x01", "\x0b", "\u00a0"]
+BAD_TEXTS = [
+    "", " ", "nul", "null", " null ", "true false", "tru", "True", "None", "NaN", "Infinity", "-Infinity", "[NaN]", "-NaN",
+    '{"a": Infinity}', "01", "-01", "00", "0", "-0", "-0.0", "1.", ".5", "1e", "1e+", "1e+5", "1E-5", "+1", "-", "- 1", "1.5E+3",
+    "0e0", "0.0e-0", "1E400", "-1e400", "1e-400", "123456789012345678901234567890", "1_000", "\uff11\uff12", "0x10", "1,5",
+    "[]", "[ ]", "{}", "{ }", "[1,]", "[,1]", "[1 2]", "[1,,2]", "[", "]", "{", "}", '{"a"}', '{"a":}', '{"a" 1}', '{"a": 1,}',
+    "{1: 2}", "{'a': 1}", '{"a": 1, "a": 2, "b": 3}', '{"a": 1, "b": 2, "a": {"a": 3, "a": 4}}', '{"": 0, "": null}',
+    '{"a" : 1 ,"b":[ ] ,\n"c"\t:\r{ } }', "[[[[[[[[[[1]]]]]]]]]]", "[[[[[[[[[[1]]]]]]]]]", '"', '""', '"a', '"\\"', '"\\\\"',
+    '"\\x41"', '"\\u12"', '"\\u12G4"', '"\\u00e9\\u00E9"', '"\\ud800"', '"\\ud800\\u0041"', '"\\udc00"', '"\\ud83d\\ude00"',
+    '"\\ud83d\\ud83d\\ude00"', '"\\ud83d x"', '"\\uD83D\\uDE00"', '"\\/"', '"/"', '"\\b\\f\\n\\r\\t"', '"\\a"', '"\\u0000"', '"a\x01b"',
+    '"a\tb"', '"a\nb"', '"\x7f"', '"\u00e9"', '"\U0001f600"', "\ufeff1", "1\x0b", "\x0c1", "\u00a01", "1 \n\t\r", '["a", 1.5, true, null, {"k": []}]',
+    "[1.5e3, -2E-2, 0.1, 1e+16, 5e-324, 1.7976931348623157e+308]", "[1a]", "1a", "[1-2]", "1-2", "1.e5", "1.5e", "[1.5e, 2]", "tnull",
+    '{"a": 1}{"b": 2}', '"a" "b"', "[1] 2", "nullnull", "[-]", "[+1]", "[.1]", "[1.]", "[0.]", "[-.5]", "2e", "E5", "e5", "-e5",
+]
+
+
+def mutate_text(rng, text):
+    """one random defect in a valid JSON text"""
+    how = rng.choice(["truncate", "delete", "insert", "replace", "double", "swap"])
+    if not text:
+        return rng.choice(TEXT_PALETTE), "insert"
+    i = rng.randrange(len(text))
+    if how == "truncate":
+        return text[:i], how
+    if how == "delete":
+        return text[:i] + text[i + 1:], how
+    if how == "insert":
+        return text[:i] + rng.choice(TEXT_PALETTE) + text[i:], how
+    if how == "replace":
+        return text[:i] + rng.choice(TEXT_PALETTE) + text[i + 1:], how
+    if how == "double":
+        return text[:i] + text[i] + text[i:], how
+    j = rng.randrange(len(text))
+    t = list(text)
+    t[i], t[j] = t[j], t[i]
+    return "".join(t), how
+
+
+def text_trip_case(out, case, j, model):
+    """model `dumps` vs json.dumps(allow_nan=False) char for char; model `loads` vs json.loads on that text"""
+    try:
+        text = json.dumps(j, allow_nan=False)
+    except ValueError:
+        return None
+    model({"op": "json_dumps", "j": jv(j)}, case, {"text": text}, "json.dumps(allow_nan=False)")
+    model(loads_op(text), case, impl_loads(text), "json.loads")
+    return text
+
+
 def zoo():
     """inputs of to_json_serializable: every branch of the dispatch, the fallbacks and the failures"""
     import numpy as np
@@ -736,6 +852,49 @@ def run(tier, seed, model_ok, translator, search=False):
         out.count("d:" + how + ":" + ("exc:" + impl["exc"] if "exc" in impl else "ok"))
         model(to_table_op(j2), case, impl, "json_data_to_table(malformed)")
 
+    # (t) JSON texts: the fixed list of edge cases, random defects in real dumps output, nested random values
+    texts = [(x, "listed") for x in BAD_TEXTS]
+    n_t = 4000 if thorough else 500
+    for i in range(n_t):
+        if i % 3 == 0:
+            base = json.dumps(rand_json(rng, 3))
+        else:
+            t = build_table(rng, gen_spec(rng))
+            try:
+                with warnings.catch_warnings():
+                    warnings.simplefilter("ignore")
+                    base = json.dumps(table_to_json_data(t))
+            except Exception:  # noqa: BLE001
+                continue
+        if i % 4 == 0:
+            texts.append((base, "valid"))
+            # the same value with other (legal) whitespace and upper-case escapes
+            texts.append((base.replace(", ", rng.choice([",", " ,\n", ",\t"])).replace(": ", rng.choice([":", " : "])), "valid ws"))
+        texts.append(mutate_text(rng, base))
+    for text, how in texts:
+        if has_surrogate(text):
+            continue
+        case = {"seed": seed, "stream": "t", "how": how, "text": text}
+        impl = impl_loads(text)
+        out.evaluations += 1
+        out.nontrivial.add(hash(text))
+        if len([x for x in out.samples if x.get("stream") == "t"]) < 1:
+            out.samples.append(case)
+        if "skip" in impl:
+            out.count("t:skipped (CPython accepts, JVal cannot express): " + impl["skip"])
+            impl = {"reject": True}            # the model must answer `none` for the named classes
+        else:
+            out.count("t:" + how + ":" + ("accepted" if "ok" in impl else "rejected"))
+        model(loads_op(text), case, impl, "json.loads(text)")
+        if "ok" in impl:
+            # re-encoding the accepted value: dumps of the model vs CPython
+            try:
+                v = json.loads(text)
+                if not has_nan_or_inf(v):
+                    model({"op": "json_dumps", "j": jv(v)}, case, {"text": json.dumps(v, allow_nan=False)}, "json.dumps(loads(text))")
+            except Exception:  # noqa: BLE001
+                pass
+
     if model_ok and ops:
         for (what, case, impl), ans in zip(pend, common.run_model(ops)):
             if isinstance(ans, dict) and "error" in ans:
@@ -861,8 +1020,9 @@ def run_table_case(out, rng, spec, case, model, edit=None):
             return
     else:
         j_back = json.loads(text)
+    text_trip_case(out, case, j, model)
     if not same_typed(j_back, j):
-        out.fail("json.loads(json.dumps(j)) differs from j (trusted-base law of the json module)", case, str(j_back)[:200],
+        out.fail("json.loads(json.dumps(j)) differs from j (law of the json module, proved of the model: loads_dumps)", case, str(j_back)[:200],
                  str(j)[:200], key="json_module")
         return
     try:
@@ -953,10 +1113,33 @@ def run_grid_case(out, grid, info, case, model, via_blocks):
         return
     if tz:
         out.count("c:timezone-aware datetimes")
+    text_trip_case(out, case, j, model)
     t2 = check_roundtrip(out, case, t, text, "reader JsonData")
     if t2 is not None:
         j_back = json.loads(text)
         model(to_table_op(j_back), case, {"ok": rc.canon_table(t2)}, "json_data_to_table(reader)")
+
+
+def rand_json(rng, depth):
+    """an arbitrary NaN-free JSON value: nested dicts / lists, astral and control characters, escapes, numbers"""
+    r = rng.random()
+    if depth == 0 or r < 0.35:
+        k = rng.randrange(7)
+        if k == 0:
+            return None
+        if k == 1:
+            return rng.random() < 0.5
+        if k == 2:
+            return rng.choice([0, -1, 7, 10 ** 20, -(2 ** 63), 123456789])
+        if k == 3:
+            return rng.choice([0.0, -0.0, 1.5, 1e16, 1e-7, 5e-324, 1.7976931348623157e308, -2.5e-10, 1 / 3, 100.0, 1e22])
+        return "".join(rng.choice(["a", "é", "\"", "\\", "/", "\n", "\t", "\r", "\b", "\f", "\x00", "\x1f", "\x7f", " ", "漢",
+                                   "\U0001f600", "\U0010ffff", "\ufffd", "\ud7ff", "\ue000", "u", "\\u", "{", "]", ":", ","])
+                       for _ in range(rng.randint(0, 5)))
+    if r < 0.7:
+        return [rand_json(rng, depth - 1) for _ in range(rng.randint(0, 4))]
+    return {rand_json(rng, 0) if False else "".join(rng.choice(["k", "é", "\"", " ", "\U0001f600", "\n"]) for _ in range(rng.randint(0, 3))):
+            rand_json(rng, depth - 1) for _ in range(rng.randint(0, 4))}
 
 
 def mutate_json(rng, j):
